@@ -9,6 +9,7 @@ FIRInterpolator::FIRInterpolator(int interp)
 
 FIRInterpolator::FIRInterpolator(int interp, const arr_real& h)
   : interp_{interp} {
+    DSPLIB_ASSERT(interp > 0, "interpolation factor must be positive");
     h_ = polyphase(h, interp_, real_t(interp_), true);
     sublen_ = h_[0].size();
     d_ = zeros(sublen_ - 1);
